@@ -333,7 +333,8 @@ class QvmCode(BaseCode):
                 # conversion error in run time)
                 if cur_type.can_hold(arg):
                     cur_type = expr.Type.from_type_char(cur.type_char)
-                    arg = cur_type.py_type(arg)
+                    # (a SINGLE constant has single precision)
+                    arg = cur_type.coerce(arg)
 
                     self._instrs[i-1] = QvmInstr(
                         f'push{cur.type_char}', arg)
